@@ -53,7 +53,13 @@ from django_components.dependencies import (
     set_component_attrs_for_js_and_css,
 )
 from django_components.node import BaseNode
-from django_components.perfutil.component import ComponentRenderer, component_context_cache, component_post_render
+from django_components.perfutil.component import (
+    ComponentRenderer,
+    child_component_attrs,
+    component_context_cache,
+    component_post_render,
+    component_renderer_cache,
+)
 from django_components.perfutil.provide import register_provide_reference, unregister_provide_reference
 from django_components.provide import get_injected_context_var
 from django_components.slots import (
@@ -614,8 +620,10 @@ class Component(
     @contextmanager
     def _with_metadata(self, item: MetadataItem) -> Generator[None, None, None]:
         self._metadata_stack.append(item)
-        yield
-        self._metadata_stack.pop()
+        try:
+            yield
+        finally:
+            self._metadata_stack.pop()
 
     @property
     def name(self) -> str:
@@ -1007,128 +1015,130 @@ class Component(
         # Required for compatibility with Django's {% extends %} tag
         # See https://github.com/django-components/django-components/pull/859
         context.render_context.push({BLOCK_CONTEXT_KEY: context.render_context.get(BLOCK_CONTEXT_KEY, BlockContext())})
+        try:
+            # By adding the current input to the stack, we temporarily allow users
+            # to access the provided context, slots, etc. Also required so users can
+            # call `self.inject()` from within `get_context_data()`.
+            #
+            # This is handled as a stack, as users can potentially call `component.render()`
+            # from within component hooks. Thus, then they do so, `component.id` will be the ID
+            # of the deepest-most call to `component.render()`.
+            render_id = gen_id()
+            metadata = MetadataItem(
+                render_id=render_id,
+                input=RenderInput(
+                    context=context,
+                    slots=slots,
+                    args=args,
+                    kwargs=kwargs,
+                    type=type,
+                    render_dependencies=render_dependencies,
+                ),
+                is_filled=None,
+            )
 
-        # By adding the current input to the stack, we temporarily allow users
-        # to access the provided context, slots, etc. Also required so users can
-        # call `self.inject()` from within `get_context_data()`.
-        #
-        # This is handled as a stack, as users can potentially call `component.render()`
-        # from within component hooks. Thus, then they do so, `component.id` will be the ID
-        # of the deepest-most call to `component.render()`.
-        render_id = gen_id()
-        metadata = MetadataItem(
-            render_id=render_id,
-            input=RenderInput(
-                context=context,
-                slots=slots,
-                args=args,
-                kwargs=kwargs,
-                type=type,
-                render_dependencies=render_dependencies,
-            ),
-            is_filled=None,
-        )
+            # We pass down the components the info about the component's parent.
+            # This is used for correctly resolving slot fills, correct rendering order,
+            # or CSS scoping.
+            if context.get(_COMPONENT_CONTEXT_KEY, None):
+                parent_id = cast(str, context[_COMPONENT_CONTEXT_KEY])
+                parent_comp_ctx = component_context_cache[parent_id]
+                component_path = [*parent_comp_ctx.component_path, self.name]
+                post_render_callbacks = parent_comp_ctx.post_render_callbacks
+            else:
+                parent_id = None
+                component_path = [self.name]
+                post_render_callbacks = {}
 
-        # We pass down the components the info about the component's parent.
-        # This is used for correctly resolving slot fills, correct rendering order,
-        # or CSS scoping.
-        if context.get(_COMPONENT_CONTEXT_KEY, None):
-            parent_id = cast(str, context[_COMPONENT_CONTEXT_KEY])
-            parent_comp_ctx = component_context_cache[parent_id]
-            component_path = [*parent_comp_ctx.component_path, self.name]
-            post_render_callbacks = parent_comp_ctx.post_render_callbacks
-        else:
-            parent_id = None
-            component_path = [self.name]
-            post_render_callbacks = {}
+            trace_component_msg(
+                "COMP_PREP_START",
+                component_name=self.name,
+                component_id=render_id,
+                slot_name=None,
+                component_path=component_path,
+                extra=f"Received {len(args)} args, {len(kwargs)} kwargs, {len(slots)} slots, Available slots: {slots}",
+            )
 
-        trace_component_msg(
-            "COMP_PREP_START",
-            component_name=self.name,
-            component_id=render_id,
-            slot_name=None,
-            component_path=component_path,
-            extra=f"Received {len(args)} args, {len(kwargs)} kwargs, {len(slots)} slots, Available slots: {slots}",
-        )
+            # This is data that will be accessible (internally) from within the component's template
+            component_ctx = ComponentContext(
+                component_class=self.__class__,
+                component_name=self.name,
+                component_id=render_id,
+                component_path=component_path,
+                # Template name is set only once we've resolved the component's Template instance.
+                template_name=None,
+                fills=slots_untyped,
+                is_dynamic_component=getattr(self, "_is_dynamic_component", False),
+                # This field will be modified from within `SlotNodes.render()`:
+                # - The `default_slot` will be set to the first slot that has the `default` attribute set.
+                #   If multiple slots have the `default` attribute set, yet have different name, then
+                #   we will raise an error.
+                default_slot=None,
+                outer_context=snapshot_context(self.outer_context) if self.outer_context is not None else None,
+                registry=self.registry,
+                post_render_callbacks=post_render_callbacks,
+            )
 
-        # Register the component to provide
+            # Instead of passing the ComponentContext directly through the Context, the entry on the Context
+            # contains only a key to retrieve the ComponentContext from `component_context_cache`.
+            #
+            # This way, the flow is easier to debug. Because otherwise, if you try to print out
+            # or inspect the Context object, your screen is filled with the deeply nested ComponentContext objects.
+            # NOTE: The entry is written to `component_context_cache` (and the component is registered with
+            # `{% provide %}`) only after the user code below has run, so that a failure in there leaves nothing behind.
+
+            # Allow to access component input and metadata like component ID from within these hook
+            with self._with_metadata(metadata):
+                context_data = self.get_context_data(*args, **kwargs)
+                # TODO - enable JS and CSS vars - EXPOSE AND DOCUMENT AND MAKE NON-NULL
+                js_data = self.get_js_data(*args, **kwargs) if hasattr(self, "get_js_data") else {}  # type: ignore
+                css_data = self.get_css_data(*args, **kwargs) if hasattr(self, "get_css_data") else {}  # type: ignore
+            self._validate_outputs(data=context_data)
+
+            # Process Component's JS and CSS
+            cache_component_js(self.__class__)
+            js_input_hash = cache_component_js_vars(self.__class__, js_data) if js_data else None
+
+            cache_component_css(self.__class__)
+            css_input_hash = cache_component_css_vars(self.__class__, css_data) if css_data else None
+
+            with _prepare_template(self, context, context_data, metadata) as template:
+                component_ctx.template_name = template.name
+
+                # For users, we expose boolean variables that they may check
+                # to see if given slot was filled, e.g.:
+                # `{% if variable > 8 and component_vars.is_filled.header %}`
+                is_filled = SlotIsFilled(slots_untyped)
+                metadata.is_filled = is_filled
+
+                with context.update(
+                    {
+                        # Private context fields
+                        _COMPONENT_CONTEXT_KEY: render_id,
+                        # NOTE: Public API for variables accessible from within a component's template
+                        # See https://github.com/django-components/django-components/issues/280#issuecomment-2081180940
+                        "component_vars": ComponentVars(
+                            is_filled=is_filled,
+                        ),
+                    }
+                ):
+                    # Make a "snapshot" of the context as it was at the time of the render call.
+                    #
+                    # Previously, we recursively called `Template.render()` as this point, but due to recursion
+                    # this was limiting the number of nested components to only about 60 levels deep.
+                    #
+                    # Now, we make a flat copy, so that the context copy is static and doesn't change even if
+                    # we leave the `with context.update` blocks.
+                    #
+                    # This makes it possible to render nested components with a queue, avoiding recursion limits.
+                    context_snapshot = snapshot_context(context)
+        finally:
+            # Cleanup
+            context.render_context.pop()
+
+        # Register the component to provide, and make its data accessible from within the component's template
         register_provide_reference(context, render_id)
-
-        # This is data that will be accessible (internally) from within the component's template
-        component_ctx = ComponentContext(
-            component_class=self.__class__,
-            component_name=self.name,
-            component_id=render_id,
-            component_path=component_path,
-            # Template name is set only once we've resolved the component's Template instance.
-            template_name=None,
-            fills=slots_untyped,
-            is_dynamic_component=getattr(self, "_is_dynamic_component", False),
-            # This field will be modified from within `SlotNodes.render()`:
-            # - The `default_slot` will be set to the first slot that has the `default` attribute set.
-            #   If multiple slots have the `default` attribute set, yet have different name, then
-            #   we will raise an error.
-            default_slot=None,
-            outer_context=snapshot_context(self.outer_context) if self.outer_context is not None else None,
-            registry=self.registry,
-            post_render_callbacks=post_render_callbacks,
-        )
-
-        # Instead of passing the ComponentContext directly through the Context, the entry on the Context
-        # contains only a key to retrieve the ComponentContext from `component_context_cache`.
-        #
-        # This way, the flow is easier to debug. Because otherwise, if you try to print out
-        # or inspect the Context object, your screen is filled with the deeply nested ComponentContext objects.
         component_context_cache[render_id] = component_ctx
-
-        # Allow to access component input and metadata like component ID from within these hook
-        with self._with_metadata(metadata):
-            context_data = self.get_context_data(*args, **kwargs)
-            # TODO - enable JS and CSS vars - EXPOSE AND DOCUMENT AND MAKE NON-NULL
-            js_data = self.get_js_data(*args, **kwargs) if hasattr(self, "get_js_data") else {}  # type: ignore
-            css_data = self.get_css_data(*args, **kwargs) if hasattr(self, "get_css_data") else {}  # type: ignore
-        self._validate_outputs(data=context_data)
-
-        # Process Component's JS and CSS
-        cache_component_js(self.__class__)
-        js_input_hash = cache_component_js_vars(self.__class__, js_data) if js_data else None
-
-        cache_component_css(self.__class__)
-        css_input_hash = cache_component_css_vars(self.__class__, css_data) if css_data else None
-
-        with _prepare_template(self, context, context_data, metadata) as template:
-            component_ctx.template_name = template.name
-
-            # For users, we expose boolean variables that they may check
-            # to see if given slot was filled, e.g.:
-            # `{% if variable > 8 and component_vars.is_filled.header %}`
-            is_filled = SlotIsFilled(slots_untyped)
-            metadata.is_filled = is_filled
-
-            with context.update(
-                {
-                    # Private context fields
-                    _COMPONENT_CONTEXT_KEY: render_id,
-                    # NOTE: Public API for variables accessible from within a component's template
-                    # See https://github.com/django-components/django-components/issues/280#issuecomment-2081180940
-                    "component_vars": ComponentVars(
-                        is_filled=is_filled,
-                    ),
-                }
-            ):
-                # Make a "snapshot" of the context as it was at the time of the render call.
-                #
-                # Previously, we recursively called `Template.render()` as this point, but due to recursion
-                # this was limiting the number of nested components to only about 60 levels deep.
-                #
-                # Now, we make a flat copy, so that the context copy is static and doesn't change even if
-                # we leave the `with context.update` blocks.
-                #
-                # This makes it possible to render nested components with a queue, avoiding recursion limits.
-                context_snapshot = snapshot_context(context)
-
-        # Cleanup
-        context.render_context.pop()
 
         # Instead of rendering component at the time we come across the `{% component %}` tag
         # in the template, we defer rendering in order to scalably handle deeply nested components.
@@ -1177,14 +1187,25 @@ class Component(
             component_path=component_path,
         )
 
-        return component_post_render(
-            renderer=deferred_render,
-            render_id=render_id,
-            component_name=self.name,
-            parent_id=parent_id,
-            on_component_rendered_callbacks=post_render_callbacks,
-            on_html_rendered=on_html_rendered,
-        )
+        try:
+            return component_post_render(
+                renderer=deferred_render,
+                render_id=render_id,
+                component_name=self.name,
+                parent_id=parent_id,
+                on_component_rendered_callbacks=post_render_callbacks,
+                on_html_rendered=on_html_rendered,
+            )
+        finally:
+            # The root component forgets every component of its render tree. After a successful render this
+            # is a no-op, unless a child's placeholder was dropped from the output. After a failed render
+            # the components that were prepared but not rendered are still registered.
+            if parent_id is None:
+                for tree_id in list(post_render_callbacks):
+                    component_context_cache.pop(tree_id, None)
+                    component_renderer_cache.pop(tree_id, None)
+                    child_component_attrs.pop(tree_id, None)
+                    unregister_provide_reference(tree_id)
 
     # Creates a renderer function that will be called only once, when the component is to be rendered.
     #
